@@ -13,7 +13,7 @@ import XotModel.Lemmas.FspecAllNormal
 namespace XotModel
 open HTree Spec
 
-/-- The forest after the first steps of `specReplaceP` / `specReplaceK`. -/
+/-- The forest after the first steps of `specReplaceP`. -/
 def replMid (f : Forest) (a b q : Nat) (t : HTree) : Forest :=
   ((f.editAt (f.parent? b) (dropTop b)).editAt (some q) (replaceTop a (fun _ => [t]))).mergeLeftAt (f.parent? b)
     (f.nbOf b)
